@@ -328,7 +328,11 @@ static J obs_brief(const ExecObs &o) {
 // runs in the forked child: only the forking thread exists here
 static void child_main(int wfd, const ExecOp &call, bool grandchild, int depth) {
     G.multi = false; S.fork_mode = false;
-    for (int i = 0; i < S.n; i++) if (i != t_thr) S.t[i].state = TS_GONE;
+    // Only the forking thread exists here, and it is a NEW kernel thread: glibc records the owner of a recursive mutex by
+    // kernel tid, so a mutex the forking thread locked before fork() (prepare handler) is owned by a tid that no longer
+    // exists - unlocking it fails with EPERM and locking it blocks; it has to be re-initialised.
+    for (int i = 0; i < S.n; i++) S.t[i].state = TS_GONE;
+    if (S.n < MAXT - 1) { t_thr = S.n; S.t[S.n].state = TS_RUNNABLE; S.n++; }
     // in the child, blocking can only be detected, never resolved
     G.run_jmp_armed = true;
     J rep = J::obj();
